@@ -4,8 +4,8 @@
    "any S": holds for every Scalar record (so also for floats with NaN/Inf);
    "ring"/"field": Section hypotheses, closed at Qc below. *)
 From Coq Require Import Permutation.
-From Amgcl Require Import Scalar QcInst Vec Crs DirectUtil CuthillMcKee Direct Inverse StaticMat Qr DirectSpec
-     CuthillMcKeeProofs DirectProofs InverseProofs StaticMatProofs.
+From Amgcl Require Import Scalar QcInst Vec Crs KernelsProofs DirectUtil CuthillMcKee Direct Inverse StaticMat Qr DirectSpec
+     CuthillMcKeeProofs DirectProofs InverseProofs StaticMatProofs CroutProofs.
 Local Open Scope S_scope.
 
 (* ------------------------------------------------------------------------------------ *)
@@ -109,16 +109,45 @@ Theorem C16_crout_dense_3_partial (d0 d1 d2 l10 l20 l21 u01 u02 u12 : S) perm L 
     = dense3 d0 d1 d2 l10 l20 l21 u01 u02 u12 i j.
 Proof. exact (crout_dense_3 Sft Seqb d0 d1 d2 l10 l20 l21 u01 u02 u12 perm L U D). Qed.
 
-(* FULL STATEMENT (unproved): A2 factorisation.
-   forall (A : crs S) perm, wf A = true -> rows have distinct columns -> Permutation perm (seq 0 n) ->
-     sky_build_perm A perm = SkyOk f ->
-     forall i j, i < n -> j < n ->
-       sumn (fun t => Lfull f i t * Ufull f t j) n = mget A (pget perm i) (pget perm j)
-   (first for the full profile = dense Crout, then for the profile computed from the pattern:
-    entries outside the profile are zero and stay zero).  [profile_wf and the non-zero pivots
-   ARE proved above; what is missing is that the stored factors multiply to P A P^T.]
-   Tested instead: exact correspondence of the implementation with Direct.v and the
-   spec-level oracle A x = b on every non-exceptional case (tools/props/C16.py). *)
+(* A2 (field): Crout factorisation in skyline storage, for EVERY n and EVERY well-formed profile:
+   the factors stored by factorize() multiply to the dense view M0 of the arrays it was given
+   (M0 = strictly lower part from L0, diagonal D0, strictly upper part from U0; zero outside the
+   profile -- and the product is zero there too: entries outside the profile stay zero). *)
+Theorem C16_crout_factors_exact n ptr (L0 U0 D0 L U D : vec S) perm :
+  profile_wf n ptr -> (0 < n)%nat ->
+  length L0 = pget ptr n -> length U0 = pget ptr n -> length D0 = n ->
+  factorize n ptr (L0, U0, D0) = Some (L, U, D) ->
+  forall i j, i < n -> j < n ->
+    sumn (fun t => Lfull (mkSky n perm ptr L U D) i t * Ufull (mkSky n perm ptr L U D) t j) n
+    = M0 ptr L0 U0 D0 i j.
+Proof.
+  intros Hwf Hn HL HU HD HF.
+  exact (crout_product Sft n ptr L0 U0 D0 HL HU HD perm L U D
+           (factorize_CInv Sft Seqb n ptr Hwf L0 U0 D0 HL HU HD L U D Hn HF)).
+Qed.
+
+(* the arrays the constructor hands to factorize() are the dense matrix P A P^T; GUARD: rows have
+   distinct columns (a duplicate entry is overwritten here, added by spmv) *)
+Theorem C16_skyline_fill_is_PAPt n (A : crs S) perm :
+  nrows A = n -> ncols A = n -> wf A = true -> rows_distinct A -> Permutation perm (seq 0 n) ->
+  let ip := inverse_perm n perm in
+  let ptr := profile_ptr n (profile_heights n ip A) in
+  let lud := fill n ip ptr A in
+  forall i j, i < n -> j < n ->
+    M0 ptr (fst (fst lud)) (snd (fst lud)) (snd lud) i j = mget A (pget perm i) (pget perm j).
+Proof.
+  intros Hnr Hnc Hw Hd Hp. exact (proj2 (fill_view Sft Seqb n A perm Hnr Hnc Hw Hd Hp)).
+Qed.
+
+(* C16, first sentence.  For EVERY square matrix with n >= 1 (any sparsity pattern, connectivity,
+   either degree order; rows with distinct columns): if the constructor succeeds, i.e. no pivot is
+   zero ("needs no pivoting"), every call of operator() -- whatever the scratch vector holds --
+   returns x with  A x = rhs  exactly (Ax = dense semantics of CRS, the spec of spmv in C07). *)
+Theorem C16_skyline_lu_solves reverse (A : crs S) f (rhs x y : vec S) :
+  wf A = true -> ncols A = nrows A -> (0 < nrows A)%nat -> rows_distinct A ->
+  sky_build reverse A = SkyOk f -> length y = nrows A -> length x = nrows A ->
+  forall r, r < nrows A -> Ax A (fst (sky_solve f rhs x y)) r = vget rhs r.
+Proof. exact (skyline_lu_solves Sft Seqb reverse A f rhs x y). Qed.
 
 (* A3 (field), partial: detail::inverse returns a right inverse whenever it returns at all
    (every chosen pivot non-zero), proved for n = 1 and n = 2 by exhausting the pivot choices.
@@ -250,6 +279,13 @@ Theorem C16_skyline_built_solver_exact_Qc reverse (A : crs QcS) f (rhs x y : vec
     = vget rhs (pget (sk_perm f) i).
 Proof. exact (C16_skyline_built_solver_exact QcS QcS_field QcS_eqb reverse A f rhs x y). Qed.
 Print Assumptions C16_skyline_built_solver_exact_Qc.
+
+Theorem C16_skyline_lu_solves_Qc reverse (A : crs QcS) f (rhs x y : vec QcS) :
+  wf A = true -> ncols A = nrows A -> (0 < nrows A)%nat -> rows_distinct A ->
+  sky_build reverse A = SkyOk f -> length y = nrows A -> length x = nrows A ->
+  forall r, r < nrows A -> Ax A (fst (sky_solve f rhs x y)) r = vget rhs r.
+Proof. exact (C16_skyline_lu_solves QcS QcS_field QcS_eqb reverse A f rhs x y). Qed.
+Print Assumptions C16_skyline_lu_solves_Qc.
 
 Theorem C16_inverse_exact_partial_Qc n (A t B : vec QcS) : (n <= 2)%nat ->
   length A = (n * n)%nat -> length t = (n * n)%nat ->
